@@ -83,6 +83,118 @@ fn semi_constraints(repo: &Path) -> Result<String, String> {
     ))
 }
 
+/// C20: inventory of hash-container aliases (with their hashers) and of files that use the
+/// randomly seeded `std::collections::Hash{Map,Set}` / `RandomState` in non-test code.
+fn hash_inventory(repo: &Path) -> Result<String, String> {
+    let dirs = ["src", "egglog-bridge/src", "core-relations/src", "union-find/src", "concurrency/src",
+                "numeric-id/src", "egglog-ast/src", "egglog-reports/src"];
+    let mut files: Vec<std::path::PathBuf> = Vec::new();
+    fn walk(d: &Path, acc: &mut Vec<std::path::PathBuf>) {
+        if let Ok(rd) = std::fs::read_dir(d) {
+            for e in rd.flatten() {
+                let p = e.path();
+                if p.is_dir() {
+                    walk(&p, acc);
+                } else if p.extension().map(|x| x == "rs").unwrap_or(false) {
+                    acc.push(p);
+                }
+            }
+        }
+    }
+    for d in dirs {
+        walk(&repo.join(d), &mut files);
+    }
+    files.sort();
+    if files.is_empty() {
+        return Err("no source files found".into());
+    }
+    let mut aliases: Vec<(String, String, String)> = Vec::new();
+    let mut std_users: Vec<String> = Vec::new();
+    for f in &files {
+        let rel = f.strip_prefix(repo).unwrap().to_string_lossy().to_string();
+        let fname = f.file_name().unwrap().to_string_lossy().to_string();
+        if fname == "tests.rs" || rel.contains("/tests/") || rel.contains("bench") {
+            continue;
+        }
+        let src = std::fs::read_to_string(f).map_err(|e| e.to_string())?;
+        let Ok(file) = syn::parse_file(&src) else { continue };
+        struct V {
+            aliases: Vec<(String, String)>,
+            std_hash: bool,
+            in_test: usize,
+        }
+        impl<'ast> Visit<'ast> for V {
+            fn visit_item_mod(&mut self, m: &'ast syn::ItemMod) {
+                let is_test = m.attrs.iter().any(|a| {
+                    use quote::ToTokens;
+                    a.to_token_stream().to_string().replace(' ', "").contains("cfg(test)")
+                });
+                if is_test {
+                    self.in_test += 1;
+                }
+                syn::visit::visit_item_mod(self, m);
+                if is_test {
+                    self.in_test -= 1;
+                }
+            }
+            fn visit_item_type(&mut self, t: &'ast syn::ItemType) {
+                use quote::ToTokens;
+                let rhs = t.ty.to_token_stream().to_string().replace(' ', "");
+                if ["HashMap<", "HashSet<", "IndexMap<", "IndexSet<", "DashMap<"].iter().any(|k| rhs.contains(k)) {
+                    self.aliases.push((t.ident.to_string(), rhs));
+                }
+                syn::visit::visit_item_type(self, t);
+            }
+            fn visit_item_use(&mut self, u: &'ast syn::ItemUse) {
+                use quote::ToTokens;
+                let s = u.to_token_stream().to_string().replace(' ', "");
+                if self.in_test == 0 && s.contains("std::collections") && (s.contains("HashMap") || s.contains("HashSet")) {
+                    self.std_hash = true;
+                }
+                if self.in_test == 0 && (s.contains("RandomState") || s.contains("ahash")) {
+                    self.std_hash = true;
+                }
+            }
+            fn visit_path(&mut self, p: &'ast syn::Path) {
+                use quote::ToTokens;
+                let s = p.to_token_stream().to_string().replace(' ', "");
+                if self.in_test == 0
+                    && (s.starts_with("std::collections::HashMap") || s.starts_with("std::collections::HashSet") || s.contains("RandomState"))
+                {
+                    self.std_hash = true;
+                }
+                syn::visit::visit_path(self, p);
+            }
+        }
+        let mut v = V { aliases: vec![], std_hash: false, in_test: 0 };
+        v.visit_file(&file);
+        for (n, rhs) in v.aliases {
+            aliases.push((rel.clone(), n, rhs));
+        }
+        if v.std_hash {
+            std_users.push(rel);
+        }
+    }
+    let mut out = String::new();
+    out.push_str("Inductive hasher := HFx | HOtherHasher.\n");
+    out.push_str("(* (file, alias, hasher) for every type alias of a hash container in non-test code *)\nDefinition hash_aliases : list (string * string * hasher) := [\n");
+    for (i, (f, n, rhs)) in aliases.iter().enumerate() {
+        // an alias built directly on a library container must name the fixed hasher; an alias
+        // built on the crate-local alias inherits it
+        let qualified = ["hashbrown::", "indexmap::", "dashmap::", "std::collections::"].iter().any(|q| rhs.contains(q));
+        let fx = if qualified { rhs.contains("FxHasher") || rhs.ends_with(",BuildHasher>") } else { true };
+        out.push_str(&format!(
+            "  (\"{}\"%string, \"{}\"%string, {}){}\n",
+            f, n, if fx { "HFx" } else { "HOtherHasher" }, if i + 1 < aliases.len() { ";" } else { "" }
+        ));
+    }
+    out.push_str("].\n");
+    out.push_str("(* non-test files that name std::collections::Hash{Map,Set} / RandomState / ahash *)\nDefinition std_hash_users : list string := [");
+    out.push_str(&std_users.iter().map(|s| format!("\"{}\"%string", s)).collect::<Vec<_>>().join("; "));
+    out.push_str("].\n");
+    Ok(out)
+}
+
 pub fn generate(repo: &Path) -> (String, Vec<String>) {
     let mut out = String::new();
     out.push_str("(* GENERATED by /verif/translator: expression-level source facts -- do not edit *)\n");
@@ -100,6 +212,17 @@ pub fn generate(repo: &Path) -> (String, Vec<String>) {
                 "{{\"item\":\"Facts.semi_constraints\",\"file\":\"egglog-bridge/src/rule.rs\",\"ok\":false,\"error\":{:?}}}",
                 e
             ));
+        }
+    }
+    match hash_inventory(repo) {
+        Ok(t) => {
+            out.push_str("\n");
+            out.push_str(&t);
+            rep.push("{\"item\":\"Facts.hash_inventory\",\"file\":\"workspace sources\",\"ok\":true}".to_string());
+        }
+        Err(e) => {
+            out.push_str(&format!("(* hash_inventory FAILED: {} *)\n", e.replace("*)", "* )")));
+            rep.push(format!("{{\"item\":\"Facts.hash_inventory\",\"file\":\"workspace sources\",\"ok\":false,\"error\":{:?}}}", e));
         }
     }
     (out, rep)
